@@ -48,7 +48,7 @@ CHECKS["C13"] = dict(
         "advances the cursor, that the &self look-ahead methods cannot consume, that truncating the spill buffer is paired with a store to "
         "the position and buffered bytes are only read positioned by it, and that end-of-data is reported/latched only under an observed "
         "empty fill or reader error. Necessary conditions of `each byte exactly once` and `never reports missing data that is available`; "
-        "value equality with the slice reader for all chunkings is not decided. REFILL: the end-of-data-reporting refill functions are called only after a decision `buffered < requested` (strict) or `local buffer empty` on every path.",
+        "value equality with the slice reader for all chunkings is not decided. REFILL: the end-of-data-reporting refill functions are called only after a decision `buffered < requested` (strict) or `local buffer empty` on every path. AMT: every copy out of a buffer is followed by an advance of exactly the copied count. STALE: a copy of the position taken before the buffer is compacted is not used afterwards. MORE: has_more_bytes answers false only after the local buffer was observed empty.",
    design_ref="DESIGN.md §3 C13")
 CHECKS["C19"] = dict(
    technique="static analysis: data-flow dependence shape of every RandomCoin method on all paths, must-pass state updates, canonical comparison of the prover's and verifier's proof-of-work predicates",
@@ -72,7 +72,9 @@ CHECKS["C02"] = dict(
         "the opened composition columns, that evaluate_constraints' result depends on every transition/boundary/Lagrange family with the drawn "
         "coefficients at the drawn point, that coefficient lists are split into complementary main/auxiliary parts (no shared or skipped "
         "randomness), and that the statement (context with every field, public inputs) is bound into the seed. Necessary conditions of soundness "
-        "for every AIR; divisor arithmetic (enforcement domains) and rejection for every invalid trace are not decided.",
+        "for every AIR; (EXEMPT) ConstraintDivisor::from_transition(n, k) exempts exactly the points g^s, n-k <= s < n (decided for the mapped-range "
+        "and push-loop forms; a window shifted by constants or a running point multiplied by itself is reported; other forms are not decided). "
+        "The remaining divisor arithmetic and rejection for every invalid trace are not decided.",
    design_ref="DESIGN.md §3 C03/C05/C02")
 CHECKS["C17"] = dict(
    technique="static analysis: writer/reader agreement by data-flow dependence with callee summaries, control-dependence of the classification, unit consistency of domain-scale accessors",
@@ -90,10 +92,11 @@ CHECKS["C07"] = dict(
         "returns normalised integers, that serialisation is canonical, and (REPR) that the representation range is inductive: assuming every "
         "incoming element is in range (f62: [0,2M); f64: canonical [0,M)), every element constructed by new/add/sub/mul/neg/double/mul_small/"
         "inv/conversions is in range for all inputs (interval analysis with exact case splits; for f64 the range of mont_red_cst/var is an "
-        "assumption). (ARITH) For add, sub, neg, double in all three fields, f62's Montgomery mul/square/new/as_int, f64's mul_small and f128's new, "
-        "the stored integer is congruent modulo p to the integer operation on the operands on every carry/borrow path, for all operands in the "
-        "representation range (exact linear forms; 16 operations). Not decided: f64 mul (mont_red_cst), f128 mul, inv, exp.",
-   note="Assumption (f64 REPR): mont_red_cst / mont_red_var return values in [0, M).",
+        "assumption). (ARITH) For add, sub, neg, double in all three fields, the Montgomery mul/new/as_int of f62 and f64 (mont_red_cst included), f62 "
+        "square, f64 mul_small and f128 new, the stored integer is congruent modulo p to the integer operation on the operands on every "
+        "carry/borrow path and lies in the representation range, for all operands in that range (exact linear forms with exact quotient/"
+        "remainder splitting and polyhedral side conditions; 19 operations). Not decided: f128 mul, inv, exp.",
+   note="Assumption (f64 REPR, interval engine only): mont_red_cst / mont_red_var return values in [0, M); for mul, new and as_int this is proved by ARITH.",
    design_ref="DESIGN.md §3 C07")
 CHECKS["C11"] = dict(
    technique="static analysis: control-dependence of the zero-copy byte view on IS_CANONICAL, monotone-counter rule with sibling cross-check, exact arithmetic on constant tables, data/control dependence of the capacity element on the input length, abstract interpretation in the domain of exact integer-linear forms (E5b) for the frequency-domain MDS product",
@@ -147,12 +150,15 @@ CHECKS["C10"] = dict(
    design_ref="DESIGN.md §3 C10")
 CHECKS["C01"] = dict(
    technique="static analysis: abstract interpretation over the honest parameter range (E4), writer/reader token-grammar comparison (E7), must-pass-through on the expanded prover and verifier CFGs (E1), dataflow unit rule (E3)",
-   text="Completeness as a whole is numerical and is NOT decided. Decided are four structural necessary conditions whose violation makes the "
+   text="Completeness as a whole is numerical and is NOT decided. Decided are structural necessary conditions whose violation makes the "
         "verifier reject or panic on honest proofs: (HR) Table::from_bytes and Queries::parse neither panic nor fail independently of the bytes "
         "for any row/column count inside the limits the constructors themselves document (1..=MAX_NUM_QUERIES, 1..=MAX_TRACE_WIDTH); (S1) every type "
         "reachable from Proof's reader has identical writer and reader token grammars (round trip consumes exactly what was written); (T) prover "
         "and verifier drive the public coin through the same documented event order with the absorbed value being the value carried in the "
-        "proof; (U) the prover's pre-evaluated boundary constraints use constraint-evaluation-domain units.",
+        "proof; (U) the prover's pre-evaluated boundary constraints use constraint-evaluation-domain units; (X, A) the FRI verifier exempts the "
+        "remainder from the divisibility test, tests the bound of the current layer, and agrees with the prover on the layer schedule; (COLS) "
+        "the number of composition columns is max(1, ceil((D+1)/trace_length)) for the composition degree D, compared symbolically on a grid "
+        "containing the multiples of the trace length.",
    design_ref="DESIGN.md §3 C01")
 CHECKS["C06"] = dict(
    technique="static analysis: inter-procedural, path-sensitive abstract interpretation of MIR (intervals + power-of-two + lengths + variant sets + relational facts on tagged values) with taint from the byte readers",
